@@ -47,6 +47,9 @@ func FromCSVReader(reader io.Reader) (*DataFrame, error) {
 	// Initialize DataFrame with columns
 	df := NewDataFrame()
 	for _, colName := range header {
+		if _, exists := df.Columns[colName]; exists {
+			return nil, fmt.Errorf("error reading header: duplicate column name '%s'", colName)
+		}
 		df.Columns[colName] = &Column[any]{
 			Name: colName,
 			Data: []any{},
